@@ -28,7 +28,7 @@ structure Backend (P : Type) where
 def refBackend : Backend Pt := ⟨refOps, sqrtModPrime, fun _ x y => some (x, y), none⟩
 
 def curveBackend : Backend Curve.Pt :=
-  ⟨fun c => OnCurve.ops c (OnCurve.tableOf c), NT.squareRootModPrime,
+  ⟨OnCurve.ops, NT.squareRootModPrime,
    fun c x y => .jac ⟨OnCurve.crvOf c, x, y, 1, some c.n, false⟩, .infinity⟩
 
 def parsePtB {P} (B : Backend P) (c : Crv) (x y : String) : Option P :=
